@@ -21,7 +21,7 @@ def plan(tier):
     if tier == "quick":
         return [("debug", 16, dict(nsets=20, nlists=100, maxfile=1 << 20)), ("release", 2, dict(nsets=10, nlists=60, maxfile=1 << 20))]
     return [("debug", 16, dict(nsets=300, nlists=1300, maxfile=4 << 20)), ("release", 2, dict(nsets=60, nlists=300, maxfile=4 << 20)),
-            ("miri", 4, dict(nsets=2, nlists=6, maxfile=3000, small=True))]
+            ("miri", 4, dict(nsets=2, nlists=6, maxfile=3000, small=True)), ("memcheck", 2, dict(nsets=4, nlists=20, maxfile=40000, small=True))]
 
 
 NAME_ALPHA = "abcdefghijklmnopqrstuvwxyzABCDEFGHIJKLMNOPQRSTUVWXYZ0123456789_-. "
